@@ -431,7 +431,7 @@ def register(reg):
     class HandleRequest(Contract):
         key = HC + ".handle_async_request"
         callsite_events = {'H2.__init__', 'H11.__init__', 'call:httpcore._async.connection.AsyncHTTPConnection._connect', 'ci.handle_request'}
-        props = ("C05", "C06", "C10", "C14", "C15", "C20", "C01", "C04", "C08")
+        props = ("C05", "C06", "C07", "C10", "C14", "C15", "C20", "C01", "C04", "C08")
         raises = CONN_RAISES + ["RuntimeError", "Cancelled"]
         raises_props = ("C15",)
         max_paths = 20000
